@@ -95,6 +95,40 @@ def search(ctx):
             if not (np.max(np.abs(U_ @ D2_ @ U_.T - P)) <= 1e-9 * (1 + np.max(np.abs(P))) * np.linalg.cond(P)
                     and np.allclose(np.diag(U_), 1) and np.max(np.abs(np.tril(U_, -1))) == 0 and np.max(np.abs(D2_ - np.diag(np.diag(D2_)))) == 0):
                 report("udu", "U D U^T != P or U not unit upper triangular / D not diagonal", inp, np.max(np.abs(U_ @ D2_ @ U_.T - P)), 1e-9)
+    # factorizations of matrices WITH zero entries (arrow / banded covariances: the factor has fill-in), handed over the two ways
+    # a caller can: as a constant SX matrix (exact 0.0 entries) and as a symbolic matrix with a sparse pattern
+    for n in (3, 4, 5):
+        for pat in ("arrow", "band"):
+            for r in range(reps):
+                P = np.diag(rng.uniform(3, 6, n))
+                for i in range(1, n):
+                    v = rng.uniform(0.5, 1.5) * rng.choice([-1, 1])
+                    if pat == "arrow":
+                        P[i, 0] = P[0, i] = v
+                    else:
+                        P[i, i - 1] = P[i - 1, i] = v
+                if pat == "band":   # reverse the order so that elimination creates fill-in
+                    P[n - 1, 0] = P[0, n - 1] = rng.uniform(0.5, 1.0)
+                inp = {"n": n, "pattern": pat, "P": P.tolist()}
+                sp = ca.DM(P).sparsity()
+                Psym = ca.SX.sym("P", sp)
+                for how in ("constant", "sparse-symbolic"):
+                    try:
+                        if how == "constant":
+                            L, D = u.ldl_symmetric_decomposition(ca.SX(ca.DM(P)))
+                            U, D2 = u.udu_symmetric_decomposition(ca.SX(ca.DM(P)))
+                            L_, D_, U_, D2_ = (np.array(ca.DM(ca.densify(x))) for x in (L, D, U, D2))
+                        else:
+                            L, D = u.ldl_symmetric_decomposition(Psym); U, D2 = u.udu_symmetric_decomposition(Psym)
+                            f = ca.Function("f", [Psym], [ca.densify(L), ca.densify(D), ca.densify(U), ca.densify(D2)])
+                            L_, D_, U_, D2_ = (np.array(x) for x in f(ca.DM(sp, P[np.array(sp.get_triplet()[0]), np.array(sp.get_triplet()[1])])))
+                    except Exception as e:   # noqa: BLE001
+                        report("ldl:zeros:" + how, "factorization raises on a matrix with zero entries: %s" % type(e).__name__, inp, 1.0, 0); continue
+                    ev += 2
+                    if not np.max(np.abs(L_ @ D_ @ L_.T - P)) <= 1e-9 * (1 + np.max(np.abs(P))) * np.linalg.cond(P):
+                        report("ldl:zeros:" + how, "L D L^T != P for a matrix with zero entries (fill-in lost)", inp, np.max(np.abs(L_ @ D_ @ L_.T - P)), 1e-9)
+                    if not np.max(np.abs(U_ @ D2_ @ U_.T - P)) <= 1e-9 * (1 + np.max(np.abs(P))) * np.linalg.cond(P):
+                        report("udu:zeros:" + how, "U D U^T != P for a matrix with zero entries (fill-in lost)", inp, np.max(np.abs(U_ @ D2_ @ U_.T - P)), 1e-9)
     # RK4: exact for cubic-in-time derivatives; order 4 on smooth fields
     t, h = ca.SX.sym("t"), ca.SX.sym("h"); y = ca.SX.sym("y", 2); c = ca.SX.sym("c", 4)
     step = u.rk4(lambda tt, yy: ca.vertcat(c[0] + c[1] * tt + c[2] * tt ** 2 + c[3] * tt ** 3, yy[0]), t, y, h)
